@@ -117,6 +117,104 @@ class Runner:
             self.failures.append({"relation": relation, "factor": factor, "a": a, "b": b, "value_a": va, "value_b": vb})
 
 
+def prefix(t, branch):
+    if t.is_leaf():
+        return f"L {t.name} {branch(t)}"
+    return f"N {branch(t)} {prefix(t.kids[0], branch)} {prefix(t.kids[1], branch)}"
+
+
+def parse_prefix(ws):
+    from fractions import Fraction
+
+    def rec(i):
+        if ws[i] == "N":
+            n = G.Node(None, [], Fraction(ws[i + 1]))
+            l, j = rec(i + 2)
+            r, j = rec(j)
+            n.kids = [l, r]
+            return n, j
+        n = G.Node(ws[i + 1], None, Fraction(ws[i + 2]))
+        return n, i + 3
+
+    t, j = rec(0)
+    assert j == len(ws)
+    return t
+
+
+def unrooted_form(t):
+    """(frozenset of (split, length) over all branches with the two root branches merged, split of the root branch);
+    a split is the frozenset of leaf names on the side that does not contain the smallest name"""
+    names = sorted(x.name for x in t.leaves())
+    lo = names[0]
+    allset = frozenset(names)
+
+    def side(x):
+        s = frozenset(y.name for y in x.leaves())
+        return allset - s if lo in s else s
+
+    a, b = t.kids
+    splits = {}
+    for x in t.preorder():
+        if x is t or x is a or x is b:
+            continue
+        splits[side(x)] = x.length
+    root_split = side(a)
+    assert side(b) == root_split
+    splits[root_split] = a.length + b.length
+    return frozenset(splits.items()), root_split
+
+
+def lean_rootings(run, tree, bucket):
+    """Lean's `allRootings` of the base tree (exact rational lengths) must enumerate every branch exactly once and
+    leave the unrooted tree unchanged"""
+    from fractions import Fraction
+
+    n = len(tree.leaves())
+    req = "rootings q | " + prefix(tree, lambda x: str(Fraction(x.length)) if x.length is not None else "0")
+    rep = run.drv.ask(req)
+    if not rep.startswith("ok "):
+        run.ck.mismatch("model rejected rootings request", {"request": req[:200], "reply": rep[:100]})
+        return
+    t0 = tree.copy()
+    for x in t0.postorder():
+        x.length = Fraction(x.length) if x.length is not None else Fraction(0)
+    base_form, _ = unrooted_form(t0)
+    seen = []
+    for part in rep[3:].split(" ; "):
+        form, rs = unrooted_form(parse_prefix(part.split()))
+        if form != base_form:
+            run.ck.mismatch("Lean rooting changes the unrooted tree", {"tree": G.newick(tree), "rooting": part})
+        seen.append(rs)
+    run.ck.case(key=("rootings", G.newick(tree, lengths=False)), bucket=bucket + "/lean-allRootings")
+    if len(seen) != 2 * n - 3 or len(set(seen)) != 2 * n - 3 or set(seen) != set(k for k, _ in base_form):
+        run.ck.mismatch("Lean allRootings does not enumerate every branch exactly once",
+                        {"tree": G.newick(tree), "count": len(seen), "distinct": len(set(seen)), "expected": 2 * n - 3})
+
+
+def lean_likn(run, case, bucket):
+    """the name-based specification `likN` (no index, no order) evaluated by the driver on the matrices of the real
+    model must reproduce the implementation's per-pattern likelihoods"""
+    out = {}
+    c01.json_case_lean(run.ck, run.drv, run.torch, case, "likn", out=out)
+    if not out or out.get("site_liks") is None or case.get("use_tip_states"):
+        return
+    t, taxa, S, K, N = out["tree"], out["taxa"], out["S"], out["K"], out["N"]
+    names = [x.name for x in t.leaves()]
+    data = []
+    for nm in names:
+        i = taxa.index(nm)
+        for p in range(N):
+            data += [float(v) for v in out["tips"][i][p]]
+    req = (f"likn f {S} {K} {N} | " + prefix(t, lambda x: str(x.index)) + f" | {G.fl(out['pi'])} | {G.fl(out['probs'])} | "
+           f"{out['mats']} | " + " ".join(names) + " | " + G.fl(data))
+    rep = run.drv.ask(req)
+    from common import h2f
+    got = [h2f(x) for x in rep.split()[1:]] if rep.startswith("ok") else None
+    run.ck.case(key=("likn", json.dumps(case, sort_keys=True)[:200]), bucket=bucket + "/lean-likN")
+    if got is None or len(got) != N or any(not close(a, b, 1e-12) for a, b in zip(got, out["site_liks"])):
+        run.ck.mismatch("name-based likN differs from the index-addressed loop", {"case": case, "likN": got, "loop": out["site_liks"]})
+
+
 def variants(run: Runner, rng, tree, names, seqs, base, bucket, exhaustive):
     """all rewritings of one base case"""
     n = len(names)
@@ -125,7 +223,11 @@ def variants(run: Runner, rng, tree, names, seqs, base, bucket, exhaustive):
     seq0 = list(names)
     rng.shuffle(seq0)
     ref = G.materialise(tree, taxa0, seq0, seqs, base)
-    kid = id(tree)
+    kid = (G.newick(tree, lengths=False), base["subst"]["kind"], base["site"]["kind"], base["rooting"])
+    if run.drv:
+        if base["rooting"] == "unrooted":
+            lean_rootings(run, tree, bucket)
+        lean_likn(run, ref, bucket)
     # --- taxa order
     perms = list(itertools.permutations(names)) if exhaustive else [tuple(rng.sample(names, n)) for _ in range(3)]
     for p in perms:
